@@ -300,6 +300,39 @@ def case_regular(ctx, cfg):
     want = n * r * r * math.sin(2 * math.pi / n) / 2
     if e is not None or not num_eq(a, want, 1e-8, 1e-8):
         ctx.fail("regular:area", "area", inputs, want, e if e is not None else a)
+        return
+    # the image under an isometry whose MATRIX is another homogeneous representative (k * M): the vertices of the image then
+    # carry the weight k, and centre / radius / inradius must still be the Euclidean ones (round 13, R13f_a)
+    if dim == 2:
+        iso, e = ctx.call(lambda: G.translation(3, -1) * G.rotation(math.pi / 2))
+    else:
+        iso, e = ctx.call(lambda: G.translation(1, -1, 2) * G.rotation(math.atan2(4, 3), G.Point(1, 2, 2)))
+    if e is not None:
+        return
+    M = np.array(iso.array, dtype=float)
+    M = M / M[-1, -1]
+    cimg = M @ np.array(list(c) + [1], dtype=float)
+    for k in (2.0, -1.0, 0.5):
+        q, e = ctx.call(lambda: G.Transformation(k * M) * Pg)
+        ctx.trace()
+        if e is not None:
+            ctx.fail(f"regular:image:{type(e).__name__}", "t*RegularPolygon", {**inputs, "matrix_factor": k}, "polygon", e)
+            return
+        if type(q) is not G.RegularPolygon:
+            continue  # the kind of the image is C06's concern; the measures below are only defined on RegularPolygon
+        for nm, want in (("radius", r), ("inradius", r * math.cos(math.pi / n))):
+            v, e = ctx.call(lambda: getattr(q, nm))
+            if e is not None or not num_eq(v, want, 1e-8, 1e-8):
+                ctx.fail(f"regular:image:{nm}", nm, {**inputs, "matrix_factor": k}, want, e if e is not None else v)
+                return
+        ce, e = ctx.call(lambda: q.center)
+        if e is not None or not proj_eq(ce.array, cimg, 1e-9):
+            ctx.fail("regular:image:center", "center", {**inputs, "matrix_factor": k}, cimg, e if e is not None else ce.array)
+            return
+        a, e = ctx.call(lambda: q.area)
+        if e is not None or not num_eq(a, n * r * r * math.sin(2 * math.pi / n) / 2, 1e-8, 1e-8):
+            ctx.fail("regular:image:area", "area", {**inputs, "matrix_factor": k}, n * r * r * math.sin(2 * math.pi / n) / 2, e if e is not None else a)
+            return
 
 
 # ---------------------------------------------------------------------------------------------------
